@@ -292,11 +292,10 @@ class BoundedGaussian(Gaussian):
         if size is None:
             return self.sample(1)[0]
         val = super().sample(size)
-        out = True
+        out = np.logical_or(val < self.lower_bound, val > self.upper_bound)
         while np.any(out):
+            val[out] = super().sample(out.sum())
             out = np.logical_or(val < self.lower_bound, val > self.upper_bound)
-            out = np.where(out)
-            val[out] = super().sample(len(out[0]))
         return val
 
 
